@@ -44,7 +44,8 @@ RULE = ("history = 1-4 stations (EVSE / DeadbandEVSE / FiniteRatesEVSE), back-to
         "store_schedule_history on/off, scripted / UncontrolledCharging / sorted schedulers, the interruption an Exception, "
         "a BaseException subclass or KeyboardInterrupt, raised at the start or at the very end of the algorithm's run "
         "(after it fetched and edited its session copies: sorted / round-robin preprocessing, a scripted allocator "
-        "that books on its copies), the loaded simulator given a fresh scheduler / the same scheduler "
+        "that books on its copies); sorted / round-robin with the SimpleRampdown estimator (learned state: always the "
+        "same scheduler object after a round trip, raise at the start), the loaded simulator given a fresh scheduler / the same scheduler "
         "object / one registered with another simulator; station ids whose sort order differs from registration order, "
         "mixed-case, numeric-looking and empty ids; periods 0.5/2.5/7; non-default tolerances; signals; scheduler output as "
         "ints / numpy scalars / numpy arrays; numpy timestamps; a scheduler that overwrites the lists it returned; dumps "
@@ -89,16 +90,23 @@ def exc_kind(h, k):
     return (h["script_seed"] + 2 * k) % 3
 
 
+def stateful(h):
+    """does the scheduler keep learned state of its own (SimpleRampdown bounds)?  That state is not part of the
+    simulator or of its JSON: it survives exactly when the SAME scheduler object is given to the loaded simulator,
+    and an aborted run of the algorithm must not have touched it (so such a scheduler raises at the start)."""
+    return h["sched"][0] == "sorted_ramp"
+
+
 def late_raise(h, k):
     """does the scheduler raise at the very END of its run (after it has fetched and edited its session
     copies and computed a schedule) instead of at the beginning?"""
-    return (h["script_seed"] // 5 + k) % 2 == 1
+    return (h["script_seed"] // 5 + k) % 2 == 1 and not stateful(h)
 
 
 def attach_mode(h, k):
     """which scheduler object is given to the LOADED simulator: 0 a fresh instance, 1 the very object that
     drove the interrupted run, 2 an instance that is already registered with another simulator"""
-    return (h["script_seed"] // 3 + k) % 3
+    return 1 if stateful(h) else (h["script_seed"] // 3 + k) % 3
 
 
 # ---------------------------------------------------------------------------------------------
@@ -149,6 +157,23 @@ def gen_history(rng, special=None, big=False):
         extra.append(["RecomputeEvent", rng.choice([rng.randint(0, last), last, last + 1, last + rng.randint(1, 3), 0])])
     mr = rng.choice([None, None, 1, 2, 3])
     sched = rng.choice([["scripted"], ["scripted"], ["scripted"], ["uncontrolled"], ["sorted", rng.choice(["edf", "fcfs", "llf", "rr"])]])
+    if rng.random() < 0.12 and not special:
+        # a scheduler with LEARNED state: sorted / round-robin with the SimpleRampdown upper-bound estimator, on a
+        # history where the learned bounds matter: continuous EVSEs, on-board chargers that draw less than the
+        # pilot (so bounds ramp down after the first period), long overlapping sessions, a shared limit
+        sched = ["sorted_ramp", rng.choice(["edf", "fcfs", "llf", "rr"])]
+        n_st = rng.choice([2, 3])
+        stations = [dict(kind=["C", 0, 32], voltage=rng.choice([208, 240])) for _ in range(n_st)]
+        sessions = []
+        for i in range(n_st):
+            a = rng.choice([0, 0, 1, 2])
+            d = a + rng.choice([5, 6, 8])
+            sessions.append(dict(station=i, arrival=a, departure=d, energy=rng.choice([8, 12]),
+                                 battery=["B", 40, 0, rng.choice([3.3, 3.3, 5.0, 6.6]) if i else 3.3],
+                                 est_departure=rng.choice([None, d])))
+        last = max(x["departure"] for x in sessions)
+        extra = [e for e in extra if e[1] <= last][:1]
+        mr = rng.choice([None, 1, 1, 2])
     if special == "zero_stay":
         sched = ["scripted"]
         s = rng.choice(sessions)
@@ -174,6 +199,8 @@ def gen_history(rng, special=None, big=False):
              np_seed=rng.randint(0, 10**6), constraint=rng.choice([None, None, 60, 1000]), special=special,
              start=[rng.choice([2019, 2020, 2021]), rng.randint(1, 12), rng.randint(1, 12), rng.randint(0, 23),
                     rng.randint(0, 59), rng.randint(0, 59), rng.choice([0, 0, 250000, 123456])])
+    if sched[0] == "sorted_ramp":
+        h["constraint"] = rng.choice([40, 48, 60])
     # ids, tolerances, signals, dtypes (checklist items 4, 6, 8, 3)
     if rng.random() < 0.4:
         h["station_ids"] = rng.choice(STATION_ID_SCHEMES[1:])[:n_st] if n_st <= 6 else None
@@ -297,7 +324,12 @@ def make_scheduler(h):
     else:
         fn = dict(edf=earliest_deadline_first, fcfs=first_come_first_served, llf=least_laxity_first,
                   rr=first_come_first_served)[s[1]]
-        a = RoundRobin(fn) if s[1] == "rr" else SortedSchedulingAlgo(fn)
+        if s[0] == "sorted_ramp":
+            from acnportal.algorithms import SimpleRampdown
+            kw = dict(estimate_max_rate=True, max_rate_estimator=SimpleRampdown())
+        else:
+            kw = {}
+        a = RoundRobin(fn, **kw) if s[1] == "rr" else SortedSchedulingAlgo(fn, **kw)
     if h["mr"] is not None:
         a.max_recompute = h["mr"]
     return a
@@ -571,7 +603,7 @@ def run_chain_impl(h, ref_ncalls):
     via_json = [r.random() < 0.5 for _ in ks]
     np.random.seed(h["np_seed"])
     calls = []
-    wrap = Crashing(make_scheduler(h), ks[0], calls, r.randint(0, 2), True)
+    wrap = Crashing(make_scheduler(h), ks[0], calls, r.randint(0, 2), not stateful(h))
     sim = build(h, wrap)
     try:
         for i in range(len(ks) + 1):
@@ -585,10 +617,10 @@ def run_chain_impl(h, ref_ncalls):
                 st = np.random.get_state()
                 sim = Simulator.from_json(sim.to_json())
                 np.random.set_state(st)
-                if r.random() < 0.5:
+                if r.random() < 0.5 or stateful(h):
                     wrap.k, wrap.n, wrap.kind = nxt, 0, r.randint(0, 2)      # the very same scheduler object
                 else:
-                    wrap = Crashing(make_scheduler(h), nxt, calls, r.randint(0, 2), r.random() < 0.5)
+                    wrap = Crashing(make_scheduler(h), nxt, calls, r.randint(0, 2), r.random() < 0.5 and not stateful(h))
                 sim.update_scheduler(wrap)
             else:
                 wrap.k, wrap.n, wrap.kind = nxt, 0, r.randint(0, 2)
@@ -689,7 +721,11 @@ def run_mutated_impl(h, k):
                 st = np.random.get_state()
                 sim, _ = dump_load(sim, 0)
                 np.random.set_state(st)
-                sim.update_scheduler(Crashing(make_scheduler(h), None, []))
+                if stateful(h):
+                    wrap.k, wrap.n = None, 0
+                    sim.update_scheduler(wrap)
+                else:
+                    sim.update_scheduler(Crashing(make_scheduler(h), None, []))
             mutate_after_interruption(sim, h)
             sim.run()
             out.append(numeric(sim))
@@ -800,12 +836,23 @@ def run_history(h, second_process=False):
         nodes, addr = graph_of(sim)
         registry = sim._to_registry()[0]
         io_mode = (h["script_seed"] // 27 + k) % 3
+        donor, donor_wrap = sim, wrap
+        if stateful(h):
+            # a scheduler with learned state can serve ONE continuation: the round trip gets an identical second
+            # interrupted simulation with its own scheduler object
+            np.random.seed(h["np_seed"])
+            donor_wrap = Crashing(make_scheduler(h), k, [], exc_kind(h, k), late_raise(h, k))
+            donor = build(h, donor_wrap)
+            try:
+                donor.run()
+            except INTERRUPTS:
+                pass
         try:
-            sim2, text = dump_load(sim, io_mode)
+            sim2, text = dump_load(donor, io_mode)
         except Exception as e:   # noqa
             sim2, text = None, None
             problem = "to_json/from_json (%s) raised %s: %s" % (["string", "path", "buffer"][io_mode], type(e).__name__, e)
-        nodes_after, _ = graph_of(sim)
+        nodes_after, _ = graph_of(donor)
         if [n[:3] for n in nodes_after] != [n[:3] for n in nodes]:
             problem = (problem + "; " if problem else "") + "to_json changed the simulator it dumped"
         rec["graph"] = [n[:3] for n in nodes]
@@ -824,7 +871,7 @@ def run_history(h, second_process=False):
             mode = attach_mode(h, k)
             if mode == 1:
                 # the scheduler object that drove the interrupted run (still bound to the old simulator)
-                sched2 = wrap
+                sched2 = donor_wrap
                 sched2.k, sched2.n, sched2.calls = None, 0, calls2
             elif mode == 2:
                 # a scheduler that is already registered with another simulator of the same history
@@ -845,7 +892,7 @@ def run_history(h, second_process=False):
 
         # order of the two continuations alternates; with the same scheduler object the in-place one goes first
         steps = [("run() after the interruption", in_place), ("dump/load/run", after_load)]
-        if (h["script_seed"] // 9 + k) % 2 and attach_mode(h, k) != 1:
+        if (h["script_seed"] // 9 + k) % 2 and (attach_mode(h, k) != 1 or stateful(h)):
             steps.reverse()
         rec["order"] = [n for n, _ in steps]
         for idx, (name, fn) in enumerate(steps):
@@ -866,8 +913,8 @@ def run_history(h, second_process=False):
                 except Exception as e:   # noqa
                     extras["sibling"] = "second simulator raised %s: %s" % (type(e).__name__, e)
                     make_events(h)
-        if k == kx and text is not None:
-            # a second, independent load of the same dump
+        if k == kx and text is not None and not stateful(h):
+            # a second, independent load of the same dump (fresh scheduler objects: not for schedulers with learned state)
             try:
                 np.random.set_state(rng_state)
                 sim3 = Simulator.from_json(text)
